@@ -157,8 +157,22 @@ func derive(base, suffix string, wrap func(func(w *World) []OpGen) func(w *World
 // registered after every scenario file's init() has run (Go runs init functions of one package in file-name order;
 // props.go sorts before scen_*.go, so derived scenarios are created lazily from main()).
 func registerDerived() {
-	for _, base := range []string{"dex", "lend"} {
+	props["C12"] = &PropSpec{
+		ID: "C12", Level: "exploration",
+		Oracles:    func(w *World) []Oracle { return []Oracle{&c12Oracle{}} },
+		Quick:      Budget{Runs: 150, MaxEvents: 160},
+		Thorough:   Budget{Runs: 6000, MaxEvents: 400},
+		Essential:  []string{"c12.non_owner_attempt"},
+		BatchProbe: []string{"c12.non_owner_attempt", "c12.killswitch_attempt", "c12.killswitch_by_admin_accepted", "c12.contract_message_from_stranger", "c12.contract_message_from_designated_accepted"},
+		Rule: "one case = one seeded simulated run (cdp, lend or dex workload) in which, interleaved with the normal traffic, non-owner actors send every message type that names someone else's position (vault withdraw/draw/close/deposit-and-draw, locker withdraw/close, lend withdraw/close and borrowing against a foreign lend position, borrow draw/close/repay-withdraw/deposit-borrow, order cancel), random actors send MsgKillSwitch, and all 20 custom contract message variants are dispatched through the real CustomMessenger from designated contracts of this and of the other network and from strangers, under chain ids comdex-1, comdex-test3 and sim-1; oracle: non-owner / non-admin / stranger attempts must fail and leave every store except the signer's sequence byte-identical; distinct = distinct digest of the event stream; non-trivial = at least one non-owner attempt was evaluated",
+		Assume: []string{"a transaction signed by one key but carrying another address in its From field is rejected by signature verification (real ante handler runs); attempts are therefore made under the attacker's own address naming the victim's position id", "deposit and repay by a non-owner are not attempted: they do not move, reduce or close the position", "farm positions and limit bids are keyed by the signer's address and cannot name another party", "on chain ids other than comdex-1 / comdex-test3 only the kill switch admin list is checked (the contract guards are network specific by their own text)"},
+	}
+	for _, base := range []string{"cdp", "dex", "lend"} {
 		if scenarios[base] == nil || scenarios[base].Gens == nil {
+			continue
+		}
+		props["C12"].Scenarios = append(props["C12"].Scenarios, derive(base, "+attack", c12Gens))
+		if base == "cdp" {
 			continue
 		}
 		e := derive(base, "+export", c20Gens)
